@@ -159,7 +159,7 @@ func cmdKeys(o *Out, p *Package, j Job) {
 			o.Emit(Event{Prog: p.ID, Kind: "harness-error", Message: fmt.Sprintf("keys: %s: %v", t.Name(), err)})
 			continue
 		}
-		o.Emit(Event{Prog: p.ID, Kind: "keys", Type: t.Name(), Keys: keys})
+		o.Emit(Event{Prog: p.ID, Kind: "keys", Type: t.Name(), Keys: keys, Data: map[string]any{"gomacro_ignored": gomacroIgnoredKeys(t)}})
 	}
 }
 
@@ -258,4 +258,28 @@ func trunc(b []byte, n int) string {
 		return string(b)
 	}
 	return string(b[:n]) + "...(truncated)"
+}
+
+// gomacroIgnoredKeys lists the JSON keys of the (flattened) fields tagged
+// gomacro:"ignore" that encoding/json still serialises: the property subtracts
+// exactly those from the ground truth.
+func gomacroIgnoredKeys(t reflect.Type) []string {
+	out := []string{}
+	for i := 0; i < t.NumField(); i++ {
+		f := t.Field(i)
+		tag, hasTag := f.Tag.Lookup("json")
+		if f.Anonymous && f.Type.Kind() == reflect.Struct && !hasTag && !refwire.IsTimeLike(f.Type) {
+			out = append(out, gomacroIgnoredKeys(f.Type)...)
+			continue
+		}
+		if !f.IsExported() || tag == "-" || f.Tag.Get("gomacro") != "ignore" {
+			continue
+		}
+		name, _, _ := strings.Cut(tag, ",")
+		if name == "" {
+			name = f.Name
+		}
+		out = append(out, name)
+	}
+	return out
 }
